@@ -332,12 +332,11 @@ func (n *Tree[V]) delEdge(token byte) {
 //nolint:funlen,gocognit,cyclop
 func (n *Tree[V]) findNode(path string, captures []string, matcher LookupMatcher[V]) (*Tree[V], int, []string, bool) {
 	var (
-		found *Tree[V]
-		idx   int
-		value V
+		found     *Tree[V]
+		idx       int
+		value     V
+		backtrack bool
 	)
-
-	backtrack := true
 
 	pathLen := len(path)
 	if pathLen == 0 {
@@ -362,16 +361,20 @@ func (n *Tree[V]) findNode(path string, captures []string, matcher LookupMatcher
 			childPathLen := len(child.path)
 
 			if pathLen >= childPathLen && child.path == path[:childPathLen] {
+				var tmp []string
+
 				nextPath := path[childPathLen:]
-				found, idx, captures, backtrack = child.findNode(nextPath, captures, matcher)
+				found, idx, tmp, backtrack = child.findNode(nextPath, captures, matcher)
+
+				if found != nil {
+					return found, idx, tmp, backtrack
+				} else if !backtrack {
+					return nil, 0, nil, false
+				}
 			}
 
 			break
 		}
-	}
-
-	if found != nil || !backtrack {
-		return found, idx, captures, backtrack
 	}
 
 	if n.wildcardChild != nil { //nolint:nestif
